@@ -10,7 +10,7 @@ PARTIAL = ("Proved per operation (refinement to list operations on the option's 
            "refuse) and the frame property at any depth: an update through one option reference leaves the option at every disjoint reference "
            "exactly as it was (lens_frame), so every by-path setter - successful or refused - touches the addressed option only (C09_api_frame): the "
            "store is a map from references to value sequences and each call is a point update. Sequences are compositions of these; that a path "
-           "names the reference the caller means is C11_resolve. The tie enumerates all sequences to depth 2 over 92 calls (depth 3 in the thorough tier: all triples over the 40 basic calls plus 120 000 sampled ones) from two start states "
+           "names the reference the caller means is C11_resolve. The tie enumerates all sequences to depth 2 over 92 calls (depth 3 in the thorough tier: all triples over the 30 basic calls plus 40 000 sampled ones) from two start states "
            "plus random sequences to length 40.")
 VARIANT = "asan"
 RULE = ("operation sequences over a finite alphabet of API calls and arguments (scalar/indexed setters, cfg_setlist/addlist, "
@@ -103,10 +103,10 @@ def generate(rng, tier):
     def core_seqs(d):
         if d <= 2:
             return itertools.product(core, repeat=d)
-        # depth 3: every triple over the 40 basic calls, and a large sample of triples over all of them (the full cube of 75
+        # depth 3: every triple over the 30 basic calls, and a large sample of triples over all of them (the full cube of 75
         # calls x 2 start states ran for an hour)
-        hot = core[:40]
-        return itertools.chain(itertools.product(hot, repeat=3), (tuple(rng.choice(core) for _ in range(3)) for _ in range(120000)))
+        hot = core[:30]
+        return itertools.chain(itertools.product(hot, repeat=3), (tuple(rng.choice(core) for _ in range(3)) for _ in range(40000)))
     for d in range(1, depth + 1):
         for seq in core_seqs(d):
             for parsed in ((False, True) if d <= 2 else (rng.random() < 0.5,)):
